@@ -22,6 +22,11 @@ def run(ctx):
     # every possible interruption point) must be loss-free
     from ..engines import labelkind as LK
     LK.k6_one_way_table(ctx, LK.Kinds(ctx.P))
+    # derived caches: invalidated by every mutation, never corrupted by a query
+    LK.k5_cache_invalidation(ctx)
+    LK.k18_tree_searcher_purity(ctx)
+    ctx.floor("K5", 6)
+    ctx.floor("K18", 6)
     ctx.floor("K6", 2)
     ctx.floor("R1", 13)
     ctx.floor("R2", 13)
